@@ -92,7 +92,7 @@ PROPS["C18"] = {
     "assumptions": ["kernel results are inputs (scripted)", "reliable FIFO socket", "EPOLLOUT delivered after EAGAIN"],
 }
 PROPS["C07"] = {
-    "claim": "placeholder",
+    "claim": "PARTIAL proof. Two models: `Proto` (operation-level model of two sessions: Flush on both transports, queue-full exit, Close/close/clean/halfClose, getStream incl. server-side stream creation, handlePolling's drain, handleStreamClose, handleFallbackData, over the LinkedBuffer/allocator model) and its message-level abstraction `Mux`; the driver runs both against two real in-package sessions and flags any disagreement. Proved on `Mux` for EVERY operation sequence, any number of streams, any queue capacity: c07_order (arrived ++ in-queue ++ on-connection = flushed, per stream and direction), c07_arrivals_prefix, c07_isolation, c07_complete_when_drained, c07_queue_has_polling; guarded by `(sender, id) not re-created` (the server re-using an id for a new stream object). A genuine defect found by this check (close element overtaking fall-back data) was repaired by a fix: commit and the model follows the repaired code. NOT proved: end-of-stream-after-data as an invariant (monitored on the real code), and the sub-operation race where the wake-up flag is published before the polling event is written (DESIGN §6 F5a).",
     "note": "Trusted: Lean kernel; extractor; harness (two bare in-package sessions, stub control connections, real send loops). Operations are atomic at this level: the sub-operation interleavings of the free list, the queue and the wake-up hand-off are C01/C02, C04, C05.",
     "technique": "Lean 4 proof + skeleton tie + lock-step correspondence of the two-session protocol model + per-stream byte-order / end-of-stream / leak monitors",
     "design_ref": "DESIGN.md §5 C07",
@@ -101,8 +101,12 @@ PROPS["C07"] = {
     "rule": "cases = (slice configuration, queue capacity 1/2/4/8, 1-3 client streams, 6-45 operations: writes of sizes relative to the slice capacities, Flush from either end, Close from either end, explicit delivery of the next control-connection event to either end, reads (ReadBytes/Peek/Discard/Read), ReleasePreviousRead, environment take/give); non-trivial = fall-back transport, queue full, end-of-stream seen, flush on closed stream, read on closed stream, several streams; distinct by hash of op lines",
     "assumptions": ["operation-level atomicity", "events on one control connection are handled in the order written"],
 }
-PROPS["C09"] = dict(PROPS["C07"], lean_modules=["ShmVerif.Tie.C07", "ShmVerif.Props.C09"], design_ref="DESIGN.md §5 C09")
-PROPS["C10"] = dict(PROPS["C07"], lean_modules=["ShmVerif.Tie.C07", "ShmVerif.Props.C10"], design_ref="DESIGN.md §5 C10")
+PROPS["C09"] = dict(PROPS["C07"], lean_modules=["ShmVerif.Tie.C07", "ShmVerif.Props.C09"], design_ref="DESIGN.md §5 C09",
+    claim="PARTIAL proof. Proved (message level, `Mux`): every exit path that ends a message's life releases it - c09_flush_closed_releases, c09_queue_full_releases, c09_close_releases_buffered, c09_unknown_stream_releases; (buffer level) c09_release_empties_parked, c09_recycle_empties_buffer. NOT yet proved: the global conservation invariant and its slot-level refinement; covered on two real in-package sessions by the leak monitor (every stream closed on both ends and nothing in flight => every size class offers its full capacity, AllInUsedShareMemoryInBytes = 0), which found and led to the repair of two leaks (pinned list not recycled on Close; ReleaseReadAndReuse) and one recorded known finding (write after Close never flushed).")
+
+PROPS["C10"] = dict(PROPS["C07"], lean_modules=["ShmVerif.Tie.C07", "ShmVerif.Props.C10"], design_ref="DESIGN.md §5 C10",
+    claim="PARTIAL proof (synchronous mode). Proved on `Mux`: c10_close_final (a local Close makes the stream closed, empty and inactive), c10_flush_after_close (later flushes fail with the closed-stream outcome and touch no channel), c10_notifies_exactly_once (the close notification is issued exactly when the stream was still open; repeated Close / Close after the peer's close announce nothing more), c10_peer_half_closes (delivery half-closes the peer's stream, which then cannot send), c10_monotone_*. On the real sessions the harness checks error classes after Close, active-stream counts and end-of-stream positions. Callback mode (Close inside OnData, callback counts) is C20's harness; not proved here.")
+
 PROPS["C02"] = dict(PROPS["C01"], lean_modules=["ShmVerif.Tie.C01", "ShmVerif.Props.C02"],
     claim="PARTIAL proof. Proved in Lean: c02_conservation_seq and c02_quiescent_full_seq (every sequential-atomic history: free count = chain length, free count + owned = capacity; when nothing is owned size = cap and the walk from head visits every slot exactly once and ends at tail), c02_failed_alloc_consumes_nothing (a failing pop restores every shared word), c02_aba_witness (kernel-checked: after the ABA schedule and full recycling size = cap = 4 but the walk visits 2 slots - known finding F1, replayed on the real code every run). Conservation for ABA-free concurrent interleavings is not proved; covered by scheduler correspondence + quiescence monitors (size, chain walk, count never exceeds capacity).",
     design_ref="DESIGN.md §5 C02")
